@@ -588,6 +588,9 @@ Join(st, s, dbs, schema) ==
       !.inputs = st.inputs \o (IF s.alias # "" THEN << s.alias >> ELSE r0.inputs),
       !.known = st.known /\ r0.known,
       !.dirs = IF keepOrder THEN st.dirs ELSE <<>>,
+      \* a right / full join has no left order to retain (unmatched right rows have no position): the
+      \* book does not say what order is then in effect, so what rank means afterwards is left open
+      !.osort = IF keepOrder THEN st.osort ELSE (st.osort \/ st.dirs # <<>>),
       !.loose = st.loose \/ r0.loose \/ undef,
       !.W = [d \in Idx(st.W) |->
                { [ns |-> NsJoin(p[1].ns, p[2].ns),
